@@ -174,7 +174,7 @@ theorem pyInt_digits (ds : List Nat) (hne : ds ≠ []) (hall : ∀ d ∈ ds, d <
 
 theorem itemBody_num (Γ : Ctx) (rec : Rec) (st : Nat) (ds : List Nat) (a : Bool)
     (hne : ds.isEmpty = false) (hall : ds.all (· < 10) = true) :
-    toOpt (itemBody Γ rec ⟨st, ds.map digitChar⟩ a) = elabItem Γ (.num ds) a := by
+    toOpt (itemBody Γ rec ⟨st, ds.map digitChar⟩ a) = elabPower Γ (.num ds) a := by
   have hf := digits_item ds hne hall
   have hne' : ds ≠ [] := by intro h; subst h; simp at hne
   have hall' : ∀ d ∈ ds, d < 10 := fun d hd => by simpa using (List.all_eq_true.mp hall) d hd
@@ -188,7 +188,7 @@ theorem itemBody_num (Γ : Ctx) (rec : Rec) (st : Nat) (ds : List Nat) (a : Bool
     unfold itemBody
     simp only [htrim, hd.1, Bool.true_or, if_true]
     cases a
-    · simp [elabItem]
+    · simp [elabPower]
     · simp only [Bool.not_true, Bool.false_eq_true, if_false]
       have : parseUnsignedInt ⟨st, digitChar d :: ds'.map digitChar⟩ = .ok ⟨.int (digitsVal (d :: ds')), [], [], []⟩ := by
         unfold parseUnsignedInt
@@ -196,7 +196,7 @@ theorem itemBody_num (Γ : Ctx) (rec : Rec) (st : Nat) (ds : List Nat) (a : Bool
         simp only [hpy]
         have : ¬ ((digitsVal (d :: ds') : Int) < 0) := by omega
         simp [this]
-      simp [this, elabItem]
+      simp [this, elabPower]
 
 theorem noMatch_opening_plain (c : Char) (tl : List Char) (h : plain c = true) : noMatch [.opening] (c :: tl) = true := by
   simp only [plain, Bool.not_eq_true', Bool.or_eq_false_iff] at h
@@ -255,7 +255,7 @@ theorem var_plain (name idx : List Char) (hn : name.all nameChar = true) (hi : i
 
 theorem itemBody_var (Γ : Ctx) (rec : Rec) (st : Nat) (name idx : List Char) (a : Bool)
     (hn : nameOK name = true) (hi : idx.all idxChar = true) :
-    toOpt (itemBody Γ rec ⟨st, name ++ (if idx.isEmpty then [] else '_' :: idx)⟩ a) = elabItem Γ (.var name idx) a := by
+    toOpt (itemBody Γ rec ⟨st, name ++ (if idx.isEmpty then [] else '_' :: idx)⟩ a) = elabPower Γ (.var name idx) a := by
   have hf := var_item name idx hn hi
   have htrim := trim_of_ends st _ hf.ends
   match name, hn with
@@ -277,7 +277,7 @@ theorem itemBody_var (Γ : Ctx) (rec : Rec) (st : Nat) (name idx : List Char) (a
     simp only [hname, hgen, Sub.isEmpty, List.isEmpty_nil, Bool.not_true, Bool.false_and, Bool.false_eq_true, if_false, if_true]
     have hpne : p.isEmpty = false := by rw [hptl]; rfl
     simp only [hpne, Bool.not_false, if_true, Sub.len]
-    simp only [elabItem]
+    simp only [elabPower]
     cases Γ.lookupVar (c :: cs) with
     | none => simp only [fail_bind, toOpt_fail]
     | some shape =>
@@ -364,24 +364,24 @@ def tailPieces : Src → Nat → List Sub
   | .pcons f tail, s0 => ⟨s0 + 1, f.print⟩ :: tailPieces tail (s0 + 1 + f.print.length)
   | _, _ => []
 
-theorem noMatch_spaces (c : Char) (tl : List Char) (h : okTop c = true) : noMatch [.spaces] (c :: tl) = true := by
-  have := okTop_not_space c h
+theorem noMatch_spaces (c : Char) (tl : List Char) (h : notSp c = true) : noMatch [.spaces] (c :: tl) = true := by
+  have : (c == ' ') = false := by simpa [notSp] using h
   simp [noMatch, firstMatch, Matcher.run, List.takeWhile, this]
 
-theorem split_spaces (tail : Src) : tail.ok .ptail = true → ∀ (A : List Char) (st : Nat), ItemFacts A →
+theorem split_spaces (tail : Src) : tail.ok .ptail = true → ∀ (A : List Char) (st : Nat), PowFacts A →
     splitL [.spaces] st (A ++ tail.print) = ⟨st, A⟩ :: tailPieces tail (st + A.length) := by
   induction tail with
   | pnil =>
     intro _ A st hA
     simp only [Src.print, List.append_nil, tailPieces]
-    exact splitL_none _ st A (find_none _ A (topAll_of_heads _ okTop [] (fun c tl hc => noMatch_spaces c tl hc) A 0 hA.top))
+    exact splitL_none _ st A (find_none _ A (topAll_of_heads _ notSp [] (fun c tl hc => noMatch_spaces c tl hc) A 0 hA.top))
   | pcons f tl ihf iht =>
     intro hok A st hA
     simp only [Src.ok, Bool.and_eq_true] at hok
-    have hf : ItemFacts f.print := print_facts f .item hok.1
+    have hf : PowFacts f.print := print_facts f .power hok.1
     obtain ⟨c, cs, hpf, hc⟩ := hf.ends.head
     have hfind : find [.spaces] (A ++ ' ' :: (f.print ++ tl.print)) = ⟨some 0, A.length, 1⟩ := by
-      apply find_sep _ A ' ' _ 0 1 (topAll_of_heads _ okTop _ (fun c tl hc => noMatch_spaces c tl hc) A 0 hA.top) hA.bal.2 (by decide)
+      apply find_sep _ A ' ' _ 0 1 (topAll_of_heads _ notSp _ (fun c tl hc => noMatch_spaces c tl hc) A 0 hA.top) hA.bal.2 (by decide)
       rw [hpf]
       simp [firstMatch, Matcher.run, List.takeWhile, startOK_not_space c hc]
     simp only [Src.print, tailPieces, List.cons_append]
@@ -403,20 +403,20 @@ theorem isplitL_none (ms : List Matcher) (first : Option Nat) (st : Nat) (p : Li
     isplitL ms first st p = [(first, ⟨st, p⟩)] := by
   rw [isplitL]; simp [h]
 
-theorem isplit_pm (tail : Src) : tail.ok .ttail = true → ∀ (A : List Char) (st : Nat) (first : Option Nat), TermFacts A →
+theorem isplit_pm (tail : Src) : tail.ok .ttail = true → ∀ (A : List Char) (st : Nat) (first : Option Nat), FracFacts A →
     isplitL plusMinus first st (A ++ tail.print) = (first, ⟨st, A⟩) :: ttailPieces tail (st + A.length) := by
   induction tail with
   | tnil =>
     intro _ A st first hA
     simp only [Src.print, List.append_nil, ttailPieces]
-    exact isplitL_none _ first st A (find_none _ A (hA.sep plusMinus (Or.inl rfl) []))
+    exact isplitL_none _ first st A (find_none _ A (hA.sep []))
   | tcons minus t tl iht ihtl =>
     intro hok A st first hA
     simp only [Src.ok, Bool.and_eq_true] at hok
-    have ht := print_facts t .term hok.1
+    have ht := print_facts t .frac hok.1
     have hfind : find plusMinus (A ++ ' ' :: ((if minus then '-' else '+') :: ' ' :: (t.print ++ tl.print))) =
         ⟨some (if minus then 1 else 0), A.length, 3⟩ := by
-      apply find_sep _ A ' ' _ _ 3 (hA.sep plusMinus (Or.inl rfl) _) hA.bal.2 (by decide)
+      apply find_sep _ A ' ' _ _ 3 (hA.sep _) hA.bal.2 (by decide)
       cases minus <;> simp [plusMinus, firstMatch, Matcher.run, List.isPrefixOf]
     simp only [Src.print, ttailPieces, List.cons_append, List.nil_append, List.append_assoc]
     rw [isplitL]
@@ -433,14 +433,139 @@ theorem fractionBody_term (Γ : Ctx) (rec : Rec) (st : Nat) (T : List Char) (hT 
   unfold fractionBody
   simp only [Sub.split, splitL_none _ st T (find_none _ T (hT.sep slash (Or.inr rfl) []))]
 
+/-! ## powers and fractions -/
+
+theorem toOpt_verify (s s' : Sub) (indices summed : List Char) :
+    toOpt (verifyIndicesSummed s indices summed) = toOpt (verifyIndicesSummed s' indices summed) := by
+  unfold verifyIndicesSummed
+  split <;> rfl
+
+/-- the common tail of `parse_power` and `parse_fraction`, independent of the spans -/
+theorem toOpt_scalar_tail (k : ErrKind) (s1 s2 : Sub) (mk : Ops → Ops → Ops) (base ex : Res) :
+    toOpt (if !ex.indices.isEmpty then fail k s1
+      else (mergeSummed s2 [base.summed, ex.summed]).bind fun summed =>
+        (verifyIndicesSummed s2 base.indices summed).bind fun _ =>
+          .ok ⟨mk base.ops ex.ops, base.shape, base.indices, summed⟩) = scalarCombine mk base ex := by
+  unfold scalarCombine
+  split
+  · rfl
+  · simp only [toOpt_bind, mergeSummed]
+    rw [toOpt_mergeSummedGo s2 noSub]
+    congr 1; funext summed
+    rw [toOpt_verify s2 noSub]
+    cases toOpt (verifyIndicesSummed noSub base.indices summed) <;> rfl
+
+theorem trim_of_nosp (st : Nat) (p : List Char) (hh : ∃ c cs, p = c :: cs ∧ (c == ' ') = false)
+    (hl : ∃ init c, p = init ++ [c] ∧ (c == ' ') = false) : (⟨st, p⟩ : Sub).trim = ⟨st, p⟩ := by
+  obtain ⟨init, d, hp, hd⟩ := hl
+  obtain ⟨c, cs, hp', hc⟩ := hh
+  have h1 : (⟨st, p⟩ : Sub).trimEnd = ⟨st, p⟩ := by
+    simp only [Sub.trimEnd, Sub.len]
+    rw [hp]; simp [List.takeWhile, hd]
+    exact List.take_of_length_le (by simp)
+  rw [Sub.trim, h1, hp']
+  exact trimStart_of_head st c cs hc
+
+theorem endsWith_space_false (st : Nat) (p : List Char) (h : Ends p) : (⟨st, p⟩ : Sub).endsWith [' '] = false := by
+  obtain ⟨init, c, hp, hc⟩ := h.last
+  have : (' ' == c) = false := by rw [Bool.beq_comm]; exact hc
+  simp [Sub.endsWith, hp, List.isPrefixOf, this]
+
+theorem pyInt_expo (neg : Bool) (ds : List Nat) (h : digitsOK ds = true) :
+    pyInt (expoText neg ds) = some (if neg then - (digitsVal ds : Int) else (digitsVal ds : Int)) := by
+  obtain ⟨hne, hall⟩ := digitsOK_iff ds h
+  have hne' : ds ≠ [] := by intro e; subst e; simp at hne
+  have hall' : ∀ d ∈ ds, d < 10 := fun d hd => by simpa using (List.all_eq_true.mp hall) d hd
+  cases neg with
+  | false => simpa [expoText] using pyInt_digits ds hne' hall'
+  | true =>
+    have hd := digitPart_digits ds hne' hall'
+    simp [expoText, pyInt, hd]
+
+theorem split_pow (st : Nat) (B E : List Char) (hB : ItemFacts B) (hE : topHeads okTop E 0 = true) :
+    splitL [.lit ['^']] st (B ++ '^' :: E) = [⟨st, B⟩, ⟨st + (B.length + 1), E⟩] := by
+  have hfind : find [.lit ['^']] (B ++ '^' :: E) = ⟨some 0, B.length, 1⟩ :=
+    find_sep _ B '^' E 0 1 (topAll_of_heads _ okTop _ (fun c tl hc => noMatch_pow c tl hc) B 0 hB.top) hB.bal.2 (by decide)
+      (by simp [firstMatch, Matcher.run, List.isPrefixOf])
+  have hE' : find [.lit ['^']] E = ⟨none, E.length, 0⟩ :=
+    find_none _ E (topAll_of_heads _ okTop [] (fun c tl hc => noMatch_pow c tl hc) E 0 hE)
+  rw [splitL]
+  simp only [hfind, Nat.succ_ne_zero, dite_false, List.take_left', List.cons.injEq, true_and]
+  have hdrop : List.drop (B.length + 1) (B ++ '^' :: E) = E := by
+    rw [show B ++ '^' :: E = (B ++ ['^']) ++ E by simp]
+    exact List.drop_left' (by simp)
+  rw [hdrop, splitL_none _ _ E hE']
+
+/-- the first steps of `parse_power` on `item^exponent` -/
+theorem powerBody_pow_pre (st : Nat) (B E : List Char) (hB : ItemFacts B)
+    (hEh : ∃ c cs, E = c :: cs ∧ (c == ' ') = false) (hEl : ∃ init c, E = init ++ [c] ∧ (c == ' ') = false) :
+    (⟨st, B ++ '^' :: E⟩ : Sub).trim = ⟨st, B ++ '^' :: E⟩ ∧ (⟨st, B⟩ : Sub).endsWith [' '] = false ∧
+    (⟨st + (B.length + 1), E⟩ : Sub).startsWith [' '] = false := by
+  obtain ⟨c0, cs0, hB0, hc0⟩ := hB.ends.head
+  obtain ⟨init, cl, hEl', hcl⟩ := hEl
+  obtain ⟨ce, cse, hEe, hce⟩ := hEh
+  refine ⟨trim_of_nosp st _ ⟨c0, cs0 ++ '^' :: E, by simp [hB0], startOK_not_space c0 hc0⟩ ⟨B ++ '^' :: init, cl, by simp [hEl'], hcl⟩,
+    endsWith_space_false st B hB.ends, ?_⟩
+  have : (' ' == ce) = false := by rw [Bool.beq_comm]; exact hce
+  simp [Sub.startsWith, hEe, List.isPrefixOf, this]
+
+/-- `parse_power` on `item^int` -/
+theorem powerBody_powInt (Γ : Ctx) (rec : Rec) (st : Nat) (B : List Char) (neg : Bool) (ds : List Nat) (a : Bool)
+    (hB : ItemFacts B) (hds : digitsOK ds = true) :
+    toOpt (powerBody Γ rec ⟨st, B ++ '^' :: expoText neg ds⟩ a) =
+      (toOpt (itemBody Γ rec ⟨st, B⟩ a)).bind fun base =>
+        scalarCombine .pow base ⟨.int (if neg then - (digitsVal ds : Int) else (digitsVal ds : Int)), [], [], []⟩ := by
+  obtain ⟨hpl, ⟨c, cs, hhead, hcsp, hcd⟩, hlast⟩ := expoText_plain neg ds hds
+  have hpl1 : (expoText neg ds).all plain = true := by
+    rw [List.all_eq_true] at hpl ⊢; intro x hx; have := hpl x hx; simp only [Bool.and_eq_true] at this; exact this.1
+  have hpl2 : topHeads okTop (expoText neg ds) 0 = true := by
+    apply topHeads_all
+    rw [List.all_eq_true] at hpl ⊢; intro x hx; have := hpl x hx; simp only [Bool.and_eq_true] at this; exact this.2
+  obtain ⟨htrim, hew, hsw⟩ := powerBody_pow_pre st B (expoText neg ds) hB ⟨c, cs, hhead, hcsp⟩ hlast
+  have hps := partitionScope_plain (st + (B.length + 1)) _ hpl1
+  have htrimE : (⟨st + (B.length + 1), expoText neg ds⟩ : Sub).trim = ⟨st + (B.length + 1), expoText neg ds⟩ :=
+    trim_of_nosp _ _ ⟨c, cs, hhead, hcsp⟩ hlast
+  have hsi : parseSignedInt ⟨st + (B.length + 1), expoText neg ds⟩ =
+      .ok ⟨.int (if neg then - (digitsVal ds : Int) else (digitsVal ds : Int)), [], [], []⟩ := by
+    unfold parseSignedInt
+    rw [htrimE]
+    simp only [pyInt_expo neg ds hds]
+  unfold powerBody
+  simp only [htrim, Sub.split, split_pow st B _ hB hpl2, hew, hsw, Bool.false_eq_true, if_false, hps]
+  have hne : (⟨st + (B.length + 1), expoText neg ds⟩ : Sub).isEmpty = false := by simp [Sub.isEmpty, hhead]
+  simp only [hne, Bool.false_and, Bool.false_eq_true, if_false]
+  rw [hhead] at hsi ⊢
+  simp only [hcd, if_true, hsi, toOpt_bind]
+  congr 1; funext base
+  try simp only [ok_bind]
+  exact toOpt_scalar_tail _ _ _ .pow base _
+
+/-- `parse_power` on `item^(expression)` -/
+theorem powerBody_powExpr (Γ : Ctx) (rec : Rec) (st : Nat) (B X : List Char) (a : Bool) (hB : ItemFacts B) (hX : Bal X) :
+    toOpt (powerBody Γ rec ⟨st, B ++ '^' :: ('(' :: (X ++ [')']))⟩ a) =
+      (toOpt (itemBody Γ rec ⟨st, B⟩ a)).bind fun base =>
+        (toOpt (rec ⟨st + (B.length + 1) + 1, X⟩)).bind fun ex => scalarCombine .pow base ex := by
+  have hEf := item_facts_bracket '(' ')' X (by decide) (by decide) hX
+  simp only [List.cons_append] at hEf
+  obtain ⟨htrim, hew, hsw⟩ := powerBody_pow_pre st B ('(' :: (X ++ [')'])) hB ⟨'(', X ++ [')'], rfl, by decide⟩ hEf.ends.last
+  have hps := partitionScope_bracket (st + (B.length + 1)) '(' ')' X (by decide) (by decide) hX
+  unfold powerBody
+  simp only [htrim, Sub.split, split_pow st B _ hB hEf.top, hew, hsw, Bool.false_eq_true, if_false, hps]
+  simp only [Sub.isEmpty, List.isEmpty_nil, Bool.and_self, beq_self_eq_true, if_true, toOpt_bind]
+  congr 1; funext base
+  congr 1; funext ex
+  exact toOpt_scalar_tail _ _ _ .pow base ex
+
 /-! ## the main induction -/
 
 /-- what parsing the printed text of a tree of kind `k` gives, when nested expressions are parsed by `rec` -/
 def Goal (Γ : Ctx) (rec : Rec) : Kind → Src → Prop
-  | .item, t => ∀ st a, toOpt (itemBody Γ rec ⟨st, t.print⟩ a) = elabItem Γ t a
+  | .item, t => ∀ st a, toOpt (itemBody Γ rec ⟨st, t.print⟩ a) = elabPower Γ t a
+  | .power, t => ∀ st a, toOpt (powerBody Γ rec ⟨st, t.print⟩ a) = elabPower Γ t a
   | .ptail, t => ∀ s0 k, 1 ≤ k →
       toOpt (mapMIdx (fun i p => powerBody Γ rec p (i == 0)) (tailPieces t s0) k) = elabFactors Γ t
   | .term, t => ∀ st, toOpt (termBody Γ rec ⟨st, t.print⟩) = elabTerm Γ t
+  | .frac, t => ∀ st, toOpt (fractionBody Γ rec ⟨st, t.print⟩) = elabFrac Γ t
   | .ttail, t => ∀ s0 k,
       (toOpt (mapMIdx (fun _ (p : Option Nat × Sub) => (fractionBody Γ rec p.2).bind fun r => .ok (p.1 == some 1, p.2, r))
         (ttailPieces t s0) k)).map stripSubs = (elabTail Γ t).map stripSubs
@@ -449,42 +574,85 @@ def Goal (Γ : Ctx) (rec : Rec) : Kind → Src → Prop
 theorem mapMIdx_cons {α β : Type} (f : Nat → α → P β) (a : α) (as : List α) (k : Nat) :
     mapMIdx f (a :: as) k = (f k a).bind fun b => (mapMIdx f as (k + 1)).bind fun bs => .ok (b :: bs) := rfl
 
-theorem term_goal (Γ : Ctx) (rec : Rec) (f tail : Src) (hok : (Src.prod f tail).ok .term = true)
-    (hf : Goal Γ rec .item f) (ht : Goal Γ rec .ptail tail) : Goal Γ rec .term (.prod f tail) := by
-  intro st
-  simp only [Src.ok, Bool.and_eq_true] at hok
-  have hff : ItemFacts f.print := print_facts f .item hok.1
-  have hfacts := print_facts (.prod f tail) .term (by simp [Src.ok, hok.1, hok.2])
+theorem termBody_prod (Γ : Ctx) (rec : Rec) (f tail : Src) (hf1 : f.ok .power = true) (ht1 : tail.ok .ptail = true)
+    (hf : Goal Γ rec .power f) (ht : Goal Γ rec .ptail tail) (st : Nat) :
+    toOpt (termBody Γ rec ⟨st, f.print ++ tail.print⟩) =
+      (elabPower Γ f true).bind fun r => (elabFactors Γ tail).bind fun rs => termCombine r rs := by
+  have hff : PowFacts f.print := print_facts f .power hf1
+  have hfacts := print_facts (.prod f tail) .term (by simp [Src.ok, hf1, ht1])
   have htrim := trim_of_ends st _ hfacts.2
   have hne : (⟨st, (Src.prod f tail).print⟩ : Sub).isEmpty = false := by
     obtain ⟨c, cs, hp, _⟩ := hfacts.2.head
     simp [Sub.isEmpty, hp]
+  simp only [Src.print] at htrim hne
   unfold termBody
   simp only [htrim, hne, Bool.false_eq_true, if_false, Sub.split]
-  simp only [Src.print]
-  rw [split_spaces tail hok.2 f.print st hff, mapMIdx_cons]
-  simp only [toOpt_bind, powerBody_item Γ rec st f.print _ hff, beq_self_eq_true]
+  rw [split_spaces tail ht1 f.print st hff, mapMIdx_cons]
+  simp only [toOpt_bind, beq_self_eq_true]
   rw [hf st true, ht _ 1 (Nat.le_refl 1)]
-  simp only [elabTerm]
-  cases elabItem Γ f true with
+  cases elabPower Γ f true with
   | none => rfl
   | some r =>
     simp only [Option.bind_some]
     cases elabFactors Γ tail with
     | none => rfl
     | some rs =>
-      simp only [Option.bind_some, toOpt_ok]
+      simp only [Option.bind_some, toOpt_ok, termCombine]
       cases rs with
       | nil => rfl
       | cons r2 rs => exact toOpt_trace _ _ _ _ _ _
 
-theorem ptail_goal (Γ : Ctx) (rec : Rec) (f tail : Src) (hok : (Src.pcons f tail).ok .ptail = true)
-    (hf : Goal Γ rec .item f) (ht : Goal Γ rec .ptail tail) : Goal Γ rec .ptail (.pcons f tail) := by
-  intro s0 k hk
+theorem term_goal (Γ : Ctx) (rec : Rec) (f tail : Src) (hok : (Src.prod f tail).ok .term = true)
+    (hf : Goal Γ rec .power f) (ht : Goal Γ rec .ptail tail) : Goal Γ rec .term (.prod f tail) := by
+  intro st
   simp only [Src.ok, Bool.and_eq_true] at hok
-  have hff : ItemFacts f.print := print_facts f .item hok.1
+  simp only [Src.print, elabTerm]
+  exact termBody_prod Γ rec f tail hok.1 hok.2 hf ht st
+
+theorem frac_goal_prod (Γ : Ctx) (rec : Rec) (f tail : Src) (hok : (Src.prod f tail).ok .frac = true)
+    (hf : Goal Γ rec .power f) (ht : Goal Γ rec .ptail tail) : Goal Γ rec .frac (.prod f tail) := by
+  intro st
+  simp only [Src.ok, Bool.and_eq_true] at hok
+  have hfacts := print_facts (.prod f tail) .term (by simp [Src.ok, hok.1, hok.2])
+  rw [fractionBody_term Γ rec st _ hfacts.1]
+  simp only [Src.print, elabFrac]
+  exact termBody_prod Γ rec f tail hok.1 hok.2 hf ht st
+
+theorem frac_goal (Γ : Ctx) (rec : Rec) (n d : Src) (hok : (Src.frac n d).ok .frac = true)
+    (hn : Goal Γ rec .term n) (hd : Goal Γ rec .term d) : Goal Γ rec .frac (.frac n d) := by
+  intro st
+  simp only [Src.ok, Bool.and_eq_true] at hok
+  have hnf := print_facts n .term hok.1
+  have hdf := print_facts d .term hok.2
+  have hfind : find slash (n.print ++ ' ' :: ('/' :: ' ' :: d.print)) = ⟨some 0, n.print.length, 3⟩ :=
+    find_sep _ n.print ' ' _ 0 3 (hnf.1.sep slash (Or.inr rfl) _) hnf.1.bal.2 (by decide)
+      (by simp [slash, firstMatch, Matcher.run, List.isPrefixOf])
+  have hsplit : splitL slash st (n.print ++ ' ' :: ('/' :: ' ' :: d.print)) = [⟨st, n.print⟩, ⟨st + (n.print.length + 3), d.print⟩] := by
+    rw [splitL]
+    simp only [hfind, Nat.succ_ne_zero, dite_false, List.take_left', List.cons.injEq, true_and]
+    have hdrop : List.drop (n.print.length + 3) (n.print ++ ' ' :: ('/' :: ' ' :: d.print)) = d.print := by
+      rw [show n.print ++ ' ' :: ('/' :: ' ' :: d.print) = (n.print ++ [' ', '/', ' ']) ++ d.print by simp]
+      exact List.drop_left' (by simp)
+    rw [hdrop, splitL_none _ _ d.print (find_none _ d.print (hdf.1.sep slash (Or.inr rfl) []))]
+  unfold fractionBody
+  simp only [Src.print, Sub.split, List.cons_append, List.nil_append, hsplit, toOpt_bind]
+  rw [hn st, hd _]
+  simp only [elabFrac]
+  cases elabTerm Γ n with
+  | none => rfl
+  | some num =>
+    simp only [Option.bind_some]
+    cases elabTerm Γ d with
+    | none => rfl
+    | some den =>
+      simp only [Option.bind_some]
+      exact toOpt_scalar_tail _ _ _ .div num den
+
+theorem ptail_goal (Γ : Ctx) (rec : Rec) (f tail : Src) (hok : (Src.pcons f tail).ok .ptail = true)
+    (hf : Goal Γ rec .power f) (ht : Goal Γ rec .ptail tail) : Goal Γ rec .ptail (.pcons f tail) := by
+  intro s0 k hk
   have hk0 : (k == 0) = false := by cases k with | zero => omega | succ k => rfl
-  simp only [tailPieces, mapMIdx_cons, toOpt_bind, powerBody_item Γ rec _ f.print _ hff, hk0]
+  simp only [tailPieces, mapMIdx_cons, toOpt_bind, hk0]
   rw [hf _ false, ht _ (k + 1) (by omega)]
   simp only [elabFactors, toOpt_ok]
 
@@ -494,15 +662,13 @@ theorem map_stripSubs_eq {a b : Option (List (Bool × Sub × Res))} (h : a.map s
   · exact Or.inl ⟨rfl, rfl⟩
   · exact Or.inr ⟨_, _, rfl, rfl, h⟩
 
-theorem ttail_goal (Γ : Ctx) (rec : Rec) (minus : Bool) (t tail : Src) (hok : (Src.tcons minus t tail).ok .ttail = true)
-    (ht : Goal Γ rec .term t) (htl : Goal Γ rec .ttail tail) : Goal Γ rec .ttail (.tcons minus t tail) := by
+theorem ttail_goal (Γ : Ctx) (rec : Rec) (minus : Bool) (t tail : Src)
+    (ht : Goal Γ rec .frac t) (htl : Goal Γ rec .ttail tail) : Goal Γ rec .ttail (.tcons minus t tail) := by
   intro s0 k
-  simp only [Src.ok, Bool.and_eq_true] at hok
-  have htf := print_facts t .term hok.1
-  simp only [ttailPieces, mapMIdx_cons, toOpt_bind, fractionBody_term Γ rec _ t.print htf.1]
+  simp only [ttailPieces, mapMIdx_cons, toOpt_bind]
   rw [ht _]
   simp only [elabTail]
-  cases elabTerm Γ t with
+  cases elabFrac Γ t with
   | none => rfl
   | some r =>
     simp only [Option.bind_some, toOpt_ok]
@@ -526,21 +692,20 @@ theorem stripMinus_pos (st : Nat) (c : Char) (cs : List Char) (hc : startOK c = 
   simp [stripMinus, this, Sub.startsWith, List.isPrefixOf, h2]
 
 theorem expr_goal (Γ : Ctx) (rec : Rec) (neg : Bool) (first tail : Src) (hok : (Src.sum neg first tail).ok .expr = true)
-    (hf : Goal Γ rec .term first) (ht : Goal Γ rec .ttail tail) : Goal Γ rec .expr (.sum neg first tail) := by
+    (hf : Goal Γ rec .frac first) (ht : Goal Γ rec .ttail tail) : Goal Γ rec .expr (.sum neg first tail) := by
   intro st
   simp only [Src.ok, Bool.and_eq_true] at hok
-  have hff := print_facts first .term hok.1
+  have hff := print_facts first .frac hok.1
   obtain ⟨c, cs, hpf, hc⟩ := hff.2.head
-  -- the substring after the optional minus, and the pieces it splits into
   have key : ∀ st', toOpt ((mapMIdx (fun _ (p : Option Nat × Sub) => (fractionBody Γ rec p.2).bind fun r => .ok (p.1 == some 1, p.2, r))
         (isplitL plusMinus (some (if neg then 1 else 0)) st' (first.print ++ tail.print)) 0).bind
           (exprCombine ⟨st, (Src.sum neg first tail).print⟩)) = elabExpr Γ (.sum neg first tail) := by
     intro st'
     rw [isplit_pm tail hok.2 first.print st' _ hff.1, mapMIdx_cons]
-    simp only [toOpt_bind, fractionBody_term Γ rec _ first.print hff.1]
+    simp only [toOpt_bind]
     rw [hf _]
     simp only [elabExpr]
-    cases elabTerm Γ first with
+    cases elabFrac Γ first with
     | none => rfl
     | some r =>
       simp only [Option.bind_some, toOpt_ok]
@@ -581,79 +746,133 @@ theorem expr_goal (Γ : Ctx) (rec : Rec) (neg : Bool) (first tail : Src) (hok : 
 theorem toOpt_bind_ok {α β : Type} (x : P α) (g : α → β) : toOpt (x.bind fun r => .ok (g r)) = (toOpt x).map g := by
   cases x <;> rfl
 
+theorem item_goal_paren (Γ : Ctx) (base : Rec) (e : Src) (he : e.ok .expr = true) (n : Nat) (hn : e.print.length + 2 < n)
+    (ih : ∀ m, e.print.length < m → Goal Γ (parseExprB Γ base m) .expr e) (st : Nat) (a : Bool) :
+    toOpt (itemBody Γ (parseExprB Γ base n) ⟨st, '(' :: (e.print ++ [')'])⟩ a) = elabPower Γ (.paren e) a := by
+  have hb : Bal e.print := print_facts e .expr he
+  match n, hn with
+  | m + 1, hn =>
+    rw [itemBody_paren Γ _ st e.print a hb, toOpt_bind_ok]
+    show Option.map _ (toOpt (exprBody Γ (parseExprB Γ base m) ⟨st + 1, e.print⟩)) = _
+    rw [ih m (by omega) (st + 1)]
+    simp only [elabPower]
+
+theorem item_goal_jump (Γ : Ctx) (base : Rec) (e : Src) (he : e.ok .expr = true) (n : Nat) (hn : e.print.length + 2 < n)
+    (ih : ∀ m, e.print.length < m → Goal Γ (parseExprB Γ base m) .expr e) (st : Nat) (a : Bool) :
+    toOpt (itemBody Γ (parseExprB Γ base n) ⟨st, '[' :: (e.print ++ [']'])⟩ a) = elabPower Γ (.jump e) a := by
+  have hb : Bal e.print := print_facts e .expr he
+  match n, hn with
+  | m + 1, hn =>
+    rw [itemBody_jump Γ _ st e.print a hb, toOpt_bind_ok]
+    show Option.map _ (toOpt (exprBody Γ (parseExprB Γ base m) ⟨st + 1, e.print⟩)) = _
+    rw [ih m (by omega) (st + 1)]
+    simp only [elabPower]
+
+theorem item_goal_mean (Γ : Ctx) (base : Rec) (e : Src) (he : e.ok .expr = true) (n : Nat) (hn : e.print.length + 2 < n)
+    (ih : ∀ m, e.print.length < m → Goal Γ (parseExprB Γ base m) .expr e) (st : Nat) (a : Bool) :
+    toOpt (itemBody Γ (parseExprB Γ base n) ⟨st, '{' :: (e.print ++ ['}'])⟩ a) = elabPower Γ (.mean e) a := by
+  have hb : Bal e.print := print_facts e .expr he
+  match n, hn with
+  | m + 1, hn =>
+    rw [itemBody_mean Γ _ st e.print a hb, toOpt_bind_ok]
+    show Option.map _ (toOpt (exprBody Γ (parseExprB Γ base m) ⟨st + 1, e.print⟩)) = _
+    rw [ih m (by omega) (st + 1)]
+    simp only [elabPower]
+
 theorem parse_print_goal (Γ : Ctx) (base : Rec) (t : Src) : ∀ k, t.ok k = true → ∀ n, t.print.length < n →
     Goal Γ (parseExprB Γ base n) k t := by
   induction t with
   | num ds =>
-    intro k h n _; cases k <;> simp only [Src.ok, Bool.false_eq_true, Bool.and_eq_true, Bool.not_eq_true'] at h
-    intro st a; exact itemBody_num Γ _ st ds a h.1 h.2
+    intro k h n _; cases k <;> simp only [Src.ok, Bool.false_eq_true] at h
+    · intro st a; exact itemBody_num Γ _ st ds a (digitsOK_iff ds h).1 (digitsOK_iff ds h).2
+    · intro st a
+      show toOpt (powerBody Γ _ ⟨st, ds.map digitChar⟩ a) = _
+      rw [powerBody_item Γ _ st _ a (digits_item ds (digitsOK_iff ds h).1 (digitsOK_iff ds h).2)]
+      exact itemBody_num Γ _ st ds a (digitsOK_iff ds h).1 (digitsOK_iff ds h).2
   | var name idx =>
     intro k h n _; cases k <;> simp only [Src.ok, Bool.false_eq_true, Bool.and_eq_true] at h
-    intro st a; exact itemBody_var Γ _ st name idx a h.1 h.2
+    · intro st a; exact itemBody_var Γ _ st name idx a h.1 h.2
+    · intro st a
+      show toOpt (powerBody Γ _ ⟨st, name ++ (if idx.isEmpty then [] else '_' :: idx)⟩ a) = _
+      rw [powerBody_item Γ _ st _ a (var_item name idx h.1 h.2)]
+      exact itemBody_var Γ _ st name idx a h.1 h.2
   | paren e ih =>
     intro k h n hn; cases k <;> simp only [Src.ok, Bool.false_eq_true] at h
-    intro st a
-    have hb : Bal e.print := print_facts e .expr h
-    match n, hn with
-    | m + 1, hn =>
-      simp only [Src.print, List.length_cons, List.length_append, List.length_nil] at hn
-      show toOpt (itemBody Γ _ ⟨st, '(' :: (e.print ++ [')'])⟩ a) = _
-      rw [itemBody_paren Γ _ st e.print a hb, toOpt_bind_ok]
-      show Option.map _ (toOpt (exprBody Γ (parseExprB Γ base m) ⟨st + 1, e.print⟩)) = _
-      rw [ih .expr h m (by omega) (st + 1)]
-      simp only [elabItem]
+    all_goals simp only [Src.print, List.length_cons, List.length_append, List.length_nil] at hn
+    · intro st a; exact item_goal_paren Γ base e h n (by omega) (fun m hm => ih .expr h m hm) st a
+    · intro st a
+      show toOpt (powerBody Γ _ ⟨st, '(' :: (e.print ++ [')'])⟩ a) = _
+      rw [powerBody_item Γ _ st _ a (by simpa using item_facts_bracket '(' ')' e.print (by decide) (by decide) (print_facts e .expr h))]
+      exact item_goal_paren Γ base e h n (by omega) (fun m hm => ih .expr h m hm) st a
   | jump e ih =>
     intro k h n hn; cases k <;> simp only [Src.ok, Bool.false_eq_true] at h
-    intro st a
-    have hb : Bal e.print := print_facts e .expr h
-    match n, hn with
-    | m + 1, hn =>
-      simp only [Src.print, List.length_cons, List.length_append, List.length_nil] at hn
-      show toOpt (itemBody Γ _ ⟨st, '[' :: (e.print ++ [']'])⟩ a) = _
-      rw [itemBody_jump Γ _ st e.print a hb, toOpt_bind_ok]
-      show Option.map _ (toOpt (exprBody Γ (parseExprB Γ base m) ⟨st + 1, e.print⟩)) = _
-      rw [ih .expr h m (by omega) (st + 1)]
-      simp only [elabItem]
+    all_goals simp only [Src.print, List.length_cons, List.length_append, List.length_nil] at hn
+    · intro st a; exact item_goal_jump Γ base e h n (by omega) (fun m hm => ih .expr h m hm) st a
+    · intro st a
+      show toOpt (powerBody Γ _ ⟨st, '[' :: (e.print ++ [']'])⟩ a) = _
+      rw [powerBody_item Γ _ st _ a (by simpa using item_facts_bracket '[' ']' e.print (by decide) (by decide) (print_facts e .expr h))]
+      exact item_goal_jump Γ base e h n (by omega) (fun m hm => ih .expr h m hm) st a
   | mean e ih =>
     intro k h n hn; cases k <;> simp only [Src.ok, Bool.false_eq_true] at h
+    all_goals simp only [Src.print, List.length_cons, List.length_append, List.length_nil] at hn
+    · intro st a; exact item_goal_mean Γ base e h n (by omega) (fun m hm => ih .expr h m hm) st a
+    · intro st a
+      show toOpt (powerBody Γ _ ⟨st, '{' :: (e.print ++ ['}'])⟩ a) = _
+      rw [powerBody_item Γ _ st _ a (by simpa using item_facts_bracket '{' '}' e.print (by decide) (by decide) (print_facts e .expr h))]
+      exact item_goal_mean Γ base e h n (by omega) (fun m hm => ih .expr h m hm) st a
+  | powInt b neg ds ih =>
+    intro k h n hn; cases k <;> simp only [Src.ok, Bool.false_eq_true, Bool.and_eq_true] at h
+    simp only [Src.print, List.length_cons, List.length_append] at hn
     intro st a
-    have hb : Bal e.print := print_facts e .expr h
+    show toOpt (powerBody Γ _ ⟨st, b.print ++ '^' :: expoText neg ds⟩ a) = _
+    rw [powerBody_powInt Γ _ st b.print neg ds a (print_facts b .item h.1) h.2, ih .item h.1 n (by omega) st a]
+    simp only [elabPower]
+  | powExpr b e ihb ihe =>
+    intro k h n hn; cases k <;> simp only [Src.ok, Bool.false_eq_true, Bool.and_eq_true] at h
+    simp only [Src.print, List.length_cons, List.length_append, List.length_nil] at hn
+    intro st a
     match n, hn with
     | m + 1, hn =>
-      simp only [Src.print, List.length_cons, List.length_append, List.length_nil] at hn
-      show toOpt (itemBody Γ _ ⟨st, '{' :: (e.print ++ ['}'])⟩ a) = _
-      rw [itemBody_mean Γ _ st e.print a hb, toOpt_bind_ok]
-      show Option.map _ (toOpt (exprBody Γ (parseExprB Γ base m) ⟨st + 1, e.print⟩)) = _
-      rw [ih .expr h m (by omega) (st + 1)]
-      simp only [elabItem]
+      show toOpt (powerBody Γ _ ⟨st, b.print ++ '^' :: ('(' :: (e.print ++ [')']))⟩ a) = _
+      rw [powerBody_powExpr Γ _ st b.print e.print a (print_facts b .item h.1) (print_facts e .expr h.2),
+        ihb .item h.1 (m + 1) (by omega) st a]
+      have : toOpt (parseExprB Γ base (m + 1) ⟨st + (b.print.length + 1) + 1, e.print⟩) = elabExpr Γ e :=
+        ihe .expr h.2 m (by omega) _
+      rw [this]
+      simp only [elabPower]
   | prod f tail ihf iht =>
     intro k h n hn; cases k <;> simp only [Src.ok, Bool.false_eq_true, Bool.and_eq_true] at h
-    simp only [Src.print, List.length_append] at hn
-    exact term_goal Γ _ f tail (by simp [Src.ok, h.1, h.2]) (ihf .item h.1 n (by omega)) (iht .ptail h.2 n (by omega))
+    all_goals simp only [Src.print, List.length_append] at hn
+    · exact term_goal Γ _ f tail (by simp [Src.ok, h.1, h.2]) (ihf .power h.1 n (by omega)) (iht .ptail h.2 n (by omega))
+    · exact frac_goal_prod Γ _ f tail (by simp [Src.ok, h.1, h.2]) (ihf .power h.1 n (by omega)) (iht .ptail h.2 n (by omega))
   | pnil =>
     intro k h n _; cases k <;> simp only [Src.ok, Bool.false_eq_true] at h
     intro s0 k _; rfl
   | pcons f tail ihf iht =>
     intro k h n hn; cases k <;> simp only [Src.ok, Bool.false_eq_true, Bool.and_eq_true] at h
     simp only [Src.print, List.length_cons, List.length_append] at hn
-    exact ptail_goal Γ _ f tail (by simp [Src.ok, h.1, h.2]) (ihf .item h.1 n (by omega)) (iht .ptail h.2 n (by omega))
+    exact ptail_goal Γ _ f tail (by simp [Src.ok, h.1, h.2]) (ihf .power h.1 n (by omega)) (iht .ptail h.2 n (by omega))
+  | frac nn d ihn ihd =>
+    intro k h n hn; cases k <;> simp only [Src.ok, Bool.false_eq_true, Bool.and_eq_true] at h
+    simp only [Src.print, List.length_cons, List.length_append] at hn
+    exact frac_goal Γ _ nn d (by simp [Src.ok, h.1, h.2]) (ihn .term h.1 n (by omega)) (ihd .term h.2 n (by omega))
   | sum neg first tail ihf iht =>
     intro k h n hn; cases k <;> simp only [Src.ok, Bool.false_eq_true, Bool.and_eq_true] at h
     simp only [Src.print, List.length_append] at hn
-    exact expr_goal Γ _ neg first tail (by simp [Src.ok, h.1, h.2]) (ihf .term h.1 n (by omega)) (iht .ttail h.2 n (by omega))
+    exact expr_goal Γ _ neg first tail (by simp [Src.ok, h.1, h.2]) (ihf .frac h.1 n (by omega)) (iht .ttail h.2 n (by omega))
   | tnil =>
     intro k h n _; cases k <;> simp only [Src.ok, Bool.false_eq_true] at h
     intro s0 k; rfl
   | tcons minus t tail iht ihtl =>
     intro k h n hn; cases k <;> simp only [Src.ok, Bool.false_eq_true, Bool.and_eq_true] at h
     simp only [Src.print, List.length_cons, List.length_append] at hn
-    exact ttail_goal Γ _ minus t tail (by simp [Src.ok, h.1, h.2]) (iht .term h.1 n (by omega)) (ihtl .ttail h.2 n (by omega))
+    exact ttail_goal Γ _ minus t tail (iht .frac h.1 n (by omega)) (ihtl .ttail h.2 n (by omega))
 
-/-- **parse ∘ print = elab** on the core grammar: for every well-formed source AST, the real parser's string
-scanning recovers exactly the grammatical structure (success, operation tree, shape, index order, summed set) -/
 theorem parse_eq_parseExprB (Γ : Ctx) (l : List Char) :
     parse Γ l = parseExprB Γ (fun s => .error ⟨.outOfFuel, some s.span, none⟩) (l.length + 1) ⟨0, l⟩ := rfl
 
+/-- **parse ∘ print = elab**: for every well-formed source AST, the real parser's string scanning recovers exactly
+the grammatical structure (success, operation tree, shape, index order, summed set) -/
 theorem parse_print_core (Γ : Ctx) (t : Src) (h : t.ok .expr = true) : toOpt (parse Γ t.print) = elabExpr Γ t := by
   rw [parse_eq_parseExprB, parseExprB_total Γ _ (fun s => .error ⟨.outOfFuel, some s.span, none⟩) (t.print.length + 1) (t.print.length + 2) ⟨0, t.print⟩
     (by simp [Sub.len]) (by simp [Sub.len])]
